@@ -336,6 +336,12 @@ def flow_rules(ctx):
     ctx.check(not bom, R, "decode: no BOM sniffing", "uses decode_without_bom_handling", "CodePage::decode calls %s, which sniffs a byte-order mark: bytes FF FE / FE FF / EF BB BF at the start switch the "
               "decoder to UTF-16/UTF-8 (e.g. Windows1252.decode(b\"\\xff\\xfeA\\0\") == \"A\") and a leading U+FEFF is dropped under UTF-8, so encode(decode) is not the identity" % [short(c[1]) for c in bom],
               f.loc(bom[0][3]["sp"]) if bom else f.loc(), fn=f.name, key=R + "|bom")
+    # the decoder's output is returned as it is: nothing trims, replaces, splits or filters the decoded text (a stored string may legitimately end in U+0000 or spaces)
+    from ..lib import unit_calls as _uc
+    post = sorted({n.rsplit("::", 1)[-1] for b, n, a, t, L in _uc(prog, f, S)
+                   if re.search(r"::(trim\w*|strip_\w+|replace\w*|truncate|pop|retain|remove|drain|split\w*|filter|take_while|skip_while|to_lowercase|to_uppercase|to_ascii_\w+|chars|char_indices)$", n)})
+    ctx.check(not post, R, "decode: the decoded text is returned unmodified", "", "CodePage::decode post-processes the decoder's output with %s: characters the bytes do encode are lost or changed "
+              "(e.g. trailing U+0000), so decode is no longer the inverse of encode" % post, f.loc(), fn=f.name, key=R + "|decode-post")
     others = [c for c in cs if re.search(r"(from_utf8\w*|from_utf8_lossy|String::from_utf16\w*)$", c[1])]
     ctx.check(not others, R, "decode: no second decoder", "", "CodePage::decode also decodes with %s" % [short(c[1]) for c in others], f.loc(), fn=f.name)
     g = prog.fn("msi::internal::codepage::CodePage::encode")
